@@ -41,24 +41,27 @@ def variable_name_for_type(type_name):
     return "".join(out) + s[i:]
 
 
-def build(seq, nest):
-    """seq: [(class, id)], nest: 'flat' | 'chain' (each child inside the previous widget)."""
-    root = qml.Obj("QWidget", "root")
+NO_ROOT_ID = "<root has its default id>"
+
+
+def build(seq, nest, root_id=NO_ROOT_ID):
+    """seq: [(class, id)], nest: 'flat' | 'chain' (each child inside the previous widget).  root_id: the id of the
+    root object is one of the alphabet too (or none at all); the dynamic bindings then read a helper object."""
+    src_obj = "root" if root_id == NO_ROOT_ID else "zsrc"
+    root = qml.Obj("QWidget", "root" if root_id == NO_ROOT_ID else root_id)
     root.add(qml.B("toolTip", '"obj-root"'))
     parent = root
     objs = []
     for k, (cls, oid) in enumerate(seq):
         o = qml.Obj(cls, oid)
-        if cls == "QAction":
-            o.add(qml.B("toolTip", f'"obj{k}"'))
-            o.add(qml.B("enabled", f'root.windowTitle == "obj{k}"'))
-        else:
-            o.add(qml.B("toolTip", f'"obj{k}"'))
-            o.add(qml.B("enabled", f'root.windowTitle == "obj{k}"'))
+        o.add(qml.B("toolTip", f'"obj{k}"'))
+        o.add(qml.B("enabled", f'{src_obj}.windowTitle == "obj{k}"'))
         parent.add(o)
         objs.append(o)
         if nest == "chain" and cls != "QAction":
             parent = o
+    if root_id != NO_ROOT_ID:
+        root.add(qml.Obj("QCheckBox", "zsrc"))
     return root, objs
 
 
@@ -79,11 +82,13 @@ def header_receivers(header):
     return out
 
 
-def judge(t, vd, cid, seq, nest, warn=False):
-    root, objs = build(seq, nest)
+def judge(t, vd, cid, seq, nest, warn=False, root_id=NO_ROOT_ID):
+    root, objs = build(seq, nest, root_id)
     # warn: the same document with a versioned import (a warning beside whatever else is reported)
     src = qml.render(root, oneline=True, imports=("qmluic.QtWidgets 6.2",)) if warn else qml.render(root, oneline=True)
     case = {"id": cid, "source": src, "seq": [list(x) for x in seq], "nest": nest, "warn": warn}
+    if root_id != NO_ROOT_ID:
+        case["root_id"] = root_id
     r = vd.job({"id": cid, "source": src, "modes": ["generate"]})
     if r.get("crashed") or r.get("timeout") or "modes" not in r or \
             r["modes"]["generate"].get("status") == "panic":
@@ -91,8 +96,8 @@ def judge(t, vd, cid, seq, nest, warn=False):
         return
     g = r["modes"]["generate"]
     t.inc("documents")
-    t.distinct.add((tuple(seq), nest))
-    ids = ["root"] + [i for (_c, i) in seq if i is not None]
+    t.distinct.add((tuple(seq), nest) if root_id == NO_ROOT_ID else (tuple(seq), nest, root_id))
+    ids = (["root"] if root_id == NO_ROOT_ID else ["zsrc"] + ([root_id] if root_id else [])) + [i for (_c, i) in seq if i is not None]
     dup = len(set(ids)) != len(ids)
     acc = vc.accepted(g, r.get("has_syntax_error"))
     if dup:
@@ -261,6 +266,7 @@ ACTION_TAGS = {"action", "action-plain", "separator-static", "separator-with-tex
 SITE_WANTS = {"buddy": WIDGET_TAGS, "buddy-dynamic": WIDGET_TAGS, "buddy-block-null-first": WIDGET_TAGS,
               "buddy-block-null-last": WIDGET_TAGS, "buddy-block-null-middle": WIDGET_TAGS, "buddy-ternary-null-first": WIDGET_TAGS,
               "buddy-ternary-null-last": WIDGET_TAGS, "buddy-if-completion": WIDGET_TAGS, "buddy-switch": WIDGET_TAGS,
+              "buddy-three-returns-middle": WIDGET_TAGS, "buddy-three-returns-last": WIDGET_TAGS, "buddy-four-returns-second": WIDGET_TAGS,
               "actions-list": ACTION_TAGS, "actions-list-dynamic": ACTION_TAGS, "menu-action": {"menu"}}
 XSITES = [
     ("binding-read", lambda x, rd: f"QLabel {{ text: {rd} as string }}" if False else f"QLabel {{ toolTip: {rd.replace('X', x)} }}"),
@@ -276,6 +282,9 @@ XSITES = [
     ("buddy-block-null-first", lambda x, rd: f"QLabel {{ buddy: {{ if (cb.checked) {{ return null }} else {{ return {x} }} }} }}"),
     ("buddy-block-null-last", lambda x, rd: f"QLabel {{ buddy: {{ if (cb.checked) {{ return {x} }} else {{ return null }} }} }}"),
     ("buddy-block-null-middle", lambda x, rd: f"QLabel {{ buddy: {{ if (cb.checked) return {x}; if (!cb.checked) return null; return {x} }} }}"),
+    ("buddy-three-returns-middle", lambda x, rd: f"QLabel {{ buddy: {{ if (cb.checked) return sink; if (!cb.checked) return {x}; return sink }} }}"),
+    ("buddy-three-returns-last", lambda x, rd: f"QLabel {{ buddy: {{ if (cb.checked) return sink; if (!cb.checked) return sink; return {x} }} }}"),
+    ("buddy-four-returns-second", lambda x, rd: f"QLabel {{ buddy: {{ if (cb.checked) return sink; if (!cb.checked) return {x}; if (cb.checked) return sink; return sink }} }}"),
     ("buddy-ternary-null-first", lambda x, rd: f"QLabel {{ buddy: cb.checked ? null : {x} }}"),
     ("buddy-ternary-null-last", lambda x, rd: f"QLabel {{ buddy: cb.checked ? {x} : null }}"),
     ("buddy-if-completion", lambda x, rd: f"QLabel {{ buddy: {{ if (cb.checked) null; else {x} }} }}"),
@@ -381,6 +390,11 @@ def shard_work(shard, nshards, payload):
         ids_ = [i for (_c, i) in seq if i is not None]
         if len(set(ids_)) != len(ids_) or k % 7 == 0:
             judge(t, vd, f"names+warning/{k}", seq, nest, warn=True)
+        if len(seq) <= 2:
+            # the root takes part: its id is one of the alphabet (so it can repeat a child's), or it has none (so its
+            # generated name competes with the children's)
+            for rid in IDS:
+                judge(t, vd, f"names+root/{k}/{rid}", seq, nest, root_id=rid)
         if k % 9001 == 0:
             t.sample({"seq": [list(x) for x in seq], "nest": nest})
     if shard == 0:
@@ -427,7 +441,7 @@ def replay(path):
     if "xref" in case:
         judge_xref(t, vd, case["id"], case["xref"], case["source"])
     elif "seq" in case:
-        judge(t, vd, 0, [tuple(x) for x in case["seq"]], case["nest"], case.get("warn", False))
+        judge(t, vd, 0, [tuple(x) for x in case["seq"]], case["nest"], case.get("warn", False), case.get("root_id", NO_ROOT_ID))
     else:
         judge_refs(t, vd)
     vd.close()
